@@ -30,6 +30,7 @@ fn main() {
         ("replay", "C13") => { vsign::replay_graph(&a.rest[0], false); 0 }
         ("replay", "C12") => { vsign::replay_graph(&a.rest[0], true); 0 }
         ("replay", "C14") => { vsign::replay_bus_graph(&a.rest[0]); 0 }
+        ("record", "DISPLAY") => codec::record_display(&a),
         ("record", "C06") => page::record_c06(&a),
         ("record", "C07") => page::record_c07(&a),
         ("record", "C19") => page::record_c19(&a),
